@@ -165,6 +165,9 @@ def offBody (ind : Bool) (row : InstrRow) (right : Str) (raw0 : Nat) (needs : Bo
       let sz := size + (if e then 2 else 1)
       let pb ← numV (raw0 ||| (if e then base + 0x0D else base + 0x0C))
       return { opCode := op, postByte := pb, additional := l, size := sz, maxSize := sz }
+  else if needs then
+    let pb ← numV (raw0 ||| (base + 0x09))
+    return { opCode := op, postByte := pb, additional := l, size := size + 2, maxSize := size + 2, needsRes := true }
   else
     match l with
     | .numeric i _ _ neg =>
@@ -263,21 +266,23 @@ def ChoicesOK (N : Nat) (p : Pkg) : Prop :=
 theorem offBody_ok {N : Nat} {ind : Bool} {row : InstrRow} {right : Str} {raw0 : Nat} {needs : Bool} {l : Value}
     {p : Pkg} (hraw : raw0 < 256) (hl : needs = true → AddlOK N l)
     (h : offBody ind row right raw0 needs l = .ok p) :
-    p.address = .none ∧ ChoicesOK N p ∧ (p.needsRes = true → needs = true) ∧
+    p.address = .none ∧ ChoicesOK N p ∧ (p.needsRes = true → AddlOK N p.additional) ∧
       (p.opCode ≠ .pyNone ∧ p.postByte ≠ .pyNone) := by
   unfold offBody at h
   simp only [bind, Except.bind, pure, Except.pure, throw, throwThe, MonadExceptOf.throw] at h
   repeat' split at h
   all_goals first
     | (cases h; done)
-    | (cases h; exact ⟨rfl, Or.inl rfl, by simp, by codes_tac⟩)
-    | (cases h; exact ⟨rfl, Or.inl rfl, fun h => h, by codes_tac⟩)
+    | (cases h
+       refine ⟨rfl, Or.inl rfl, ?_, by codes_tac⟩
+       intro hh
+       first | exact hl ‹needs = true› | contradiction | cases hh)
     | (cases h
        have hcodes : (_ : Value) ≠ .pyNone ∧ (_ : Value) ≠ .pyNone :=
          ⟨opVal_ne ‹opVal row.ind = _›, numV_ne ‹numV raw0 = _›⟩
        have hlen := numV_hexLen ‹numV raw0 = _› hraw
        obtain ⟨hh, m, rfl, _⟩ := numV_eq ‹numV raw0 = _›
-       exact ⟨rfl, Or.inr ⟨_, _, rfl, by omega, by omega, ⟨raw0, rfl, hraw, hlen⟩, hl ‹_›⟩, fun _ => ‹needs = true›,
+       exact ⟨rfl, Or.inr ⟨_, _, rfl, by omega, by omega, ⟨raw0, rfl, hraw, hlen⟩, hl ‹_›⟩, fun _ => hl ‹needs = true›,
          hcodes.1, nofun⟩)
 
 theorem AddlOK.of_expr {N : Nat} (hN : 0 < N) {v : Value} (hv : v.Good N)
@@ -303,7 +308,8 @@ theorem AddlOK.of_expr {N : Nat} (hN : 0 < N) {v : Value} (hv : v.Good N)
 theorem translateOffset_ok {N : Nat} (hN : 0 < N) {ind : Bool} {row : InstrRow} {left : Value} {right : Str}
     {raw0 : Nat} {p : Pkg} (hraw : raw0 < 256) (hl : left.Good N)
     (h : translateOffset ind row left right raw0 = .ok p) :
-    p.address = .none ∧ ChoicesOK N p ∧ (p.opCode ≠ .pyNone ∧ p.postByte ≠ .pyNone) := by
+    p.address = .none ∧ ChoicesOK N p ∧ (p.opCode ≠ .pyNone ∧ p.postByte ≠ .pyNone) ∧
+      (p.needsRes = true → AddlOK N p.additional) := by
   rw [translateOffset_eq] at h
   split at h
   · cases h
@@ -316,10 +322,10 @@ theorem translateOffset_ok {N : Nat} (hN : 0 < N) {ind : Bool} {row : InstrRow} 
         have hi : i < N := hl
         have hA : AddlOK N (.numeric i hh mm false) := ⟨hle, ⟨i, rfl, hi⟩, ⟨i, rfl, hi⟩⟩
         have := offBody_ok (N := N) hraw (fun _ => hA) h
-        exact ⟨this.1, this.2.1, this.2.2.2⟩
+        exact ⟨this.1, this.2.1, this.2.2.2, this.2.2.1⟩
       · cases h
     · have := offBody_ok (N := N) hraw (fun he => AddlOK.of_expr hN hl he) h
-      exact ⟨this.1, this.2.1, this.2.2.2⟩
+      exact ⟨this.1, this.2.1, this.2.2.2, this.2.2.1⟩
 
 theorem regBits_lt (r : Str) : regBits r < 128 := by
   unfold regBits
@@ -337,6 +343,7 @@ structure PkgOK (N : Nat) (row : InstrRow) (o : Operand) (p : Pkg) : Prop where
   choices : ChoicesOK N p
   rel : o.kind = .relative → (∃ b, p.additional.int? = some b) ∧ (row.isShortBranch = false → 1 ≤ p.size)
   needs : p.needsRes = true → o.value.isLeftRight = true ∧ (o.kind = .indexed ∨ o.kind = .extIndirect)
+  addl : p.needsRes = true → AddlOK N p.additional     -- (batch B3) a label offset without choices is resolved by `fixOne` too
 
 theorem translateIndexed_ok {N : Nat} (hN : 0 < N) {row : InstrRow} {o : Operand} {p : Pkg} (hres : OpRes N row o)
     (hk : o.kind = .indexed) (h : translateIndexed o row = .ok p) : PkgOK N row o p := by
@@ -353,17 +360,17 @@ theorem translateIndexed_ok {N : Nat} (hN : 0 < N) {row : InstrRow} {o : Operand
     repeat' split at h
     all_goals first
     | (cases h; done)
-    | (cases h; exact ⟨trivial, by codes_tac, Or.inl rfl, by simp, by simp⟩)
+    | (cases h; exact ⟨trivial, by codes_tac, Or.inl rfl, by simp, by simp, by simp⟩)
     | (have hto := translateOffset_ok hN (Nat.lt_trans (regBits_lt _) (by decide))
          (hleft _ rfl) h
-       exact ⟨by rw [hto.1]; trivial, hto.2.2, hto.2.1, by simp,
-         fun _ => ⟨hright (by simp), Or.inl rfl⟩⟩)
+       exact ⟨by rw [hto.1]; trivial, hto.2.2.1, hto.2.1, by simp,
+         fun _ => ⟨hright (by simp), Or.inl rfl⟩, hto.2.2.2⟩)
   case text.some =>
     generalize translateIndexed.match_3 (fun x => Bool) (Side.text _) _ _ _ = b at h
     repeat' split at h
     all_goals first
     | (cases h; done)
-    | (cases h; exact ⟨trivial, by codes_tac, Or.inl rfl, by simp, by simp⟩)
+    | (cases h; exact ⟨trivial, by codes_tac, Or.inl rfl, by simp, by simp, by simp⟩)
   all_goals
     repeat' split at h
     all_goals first
@@ -387,10 +394,10 @@ theorem translateExtIndirect_ok_val {N : Nat} (hN : 0 < N) {row : InstrRow} {tex
   repeat' split at h
   all_goals first
   | (cases h; done)
-  | (cases h; exact ⟨trivial, by codes_tac, Or.inl rfl, by simp, by simp⟩)
+  | (cases h; exact ⟨trivial, by codes_tac, Or.inl rfl, by simp, by simp, by simp⟩)
   | (have hto := translateOffset_ok hN (extRaw_lt _) hleft h
-     exact ⟨by rw [hto.1]; trivial, hto.2.2, hto.2.1, by simp,
-       fun _ => ⟨hright, Or.inr rfl⟩⟩)
+     exact ⟨by rw [hto.1]; trivial, hto.2.2.1, hto.2.1, by simp,
+       fun _ => ⟨hright, Or.inr rfl⟩, hto.2.2.2⟩)
 
 theorem translateExtIndirect_ok_text {N : Nat} (hN : 0 < N) {row : InstrRow} {text : Str} {value : Value} {l r : Str}
     {p : Pkg} (hright : value.isLeftRight = true)
@@ -408,10 +415,10 @@ theorem translateExtIndirect_ok_text {N : Nat} (hN : 0 < N) {row : InstrRow} {te
   repeat' split at h
   all_goals first
   | (cases h; done)
-  | (cases h; exact ⟨trivial, by codes_tac, Or.inl rfl, by simp, by simp⟩)
+  | (cases h; exact ⟨trivial, by codes_tac, Or.inl rfl, by simp, by simp, by simp⟩)
   | (have hto := translateOffset_ok hN (extRaw_lt _) (createV_good N ‹createV _ _ _ = .ok _›) h
-     exact ⟨by rw [hto.1]; trivial, hto.2.2, hto.2.1, by simp,
-       fun _ => ⟨hright, Or.inr rfl⟩⟩)
+     exact ⟨by rw [hto.1]; trivial, hto.2.2.1, hto.2.1, by simp,
+       fun _ => ⟨hright, Or.inr rfl⟩, hto.2.2.2⟩)
 
 theorem translateExtIndirect_ok {N : Nat} (hN : 0 < N) {row : InstrRow} {o : Operand} {p : Pkg}
     (hres : OpRes N row o) (hk : o.kind = .extIndirect) (h : translateExtIndirect o row = .ok p) :
@@ -431,7 +438,7 @@ theorem translateExtIndirect_ok {N : Nat} (hN : 0 < N) {row : InstrRow} {o : Ope
     repeat' split at h
     all_goals first
     | (cases h; done)
-    | (cases h; exact ⟨trivial, by codes_tac, Or.inl rfl, by simp, by simp⟩)
+    | (cases h; exact ⟨trivial, by codes_tac, Or.inl rfl, by simp, by simp, by simp⟩)
 
 theorem translatePseudo_ok {N : Nat} {row : InstrRow} {o : Operand} {p : Pkg}
     (hres : OpRes N row o) (hk : o.kind = .pseudo) (h : translatePseudo o row = .ok p) : PkgOK N row o p := by
@@ -440,9 +447,9 @@ theorem translatePseudo_ok {N : Nat} {row : InstrRow} {o : Operand} {p : Pkg}
   repeat' split at h
   all_goals first
     | (cases h; done)
-    | (cases h; exact ⟨trivial, by codes_tac, Or.inl rfl, by simp [hk], by simp⟩)
+    | (cases h; exact ⟨trivial, by codes_tac, Or.inl rfl, by simp [hk], by simp, by simp⟩)
     | (cases h
-       refine ⟨?_, by codes_tac, Or.inl rfl, by simp [hk], by simp⟩
+       refine ⟨?_, by codes_tac, Or.inl rfl, by simp [hk], by simp, by simp⟩
        have hg := hres.good
        cases hv : o.value <;> simp_all [Value.isNumeric, Value.Good])
 
@@ -453,7 +460,7 @@ theorem translateSpecial_ok {N : Nat} {row : InstrRow} {o : Operand} {p : Pkg}
   repeat' split at h
   all_goals first
     | (cases h; done)
-    | (cases h; exact ⟨trivial, by codes_tac, Or.inl rfl, by simp [hk], by simp⟩)
+    | (cases h; exact ⟨trivial, by codes_tac, Or.inl rfl, by simp [hk], by simp, by simp⟩)
 
 theorem translateOperand_ok {N : Nat} (hN : 0 < N) {row : InstrRow} {o : Operand} {p : Pkg}
     (hres : OpRes N row o) (hrow : row.isLongBranch = true → 1 ≤ row.relSz)
@@ -476,13 +483,13 @@ theorem translateOperand_ok {N : Nat} (hN : 0 < N) {row : InstrRow} {o : Operand
     all_goals first
       | (cases h; done)
       | (cases h
-         refine ⟨trivial, by codes_tac, Or.inl rfl, fun _ => ⟨?_, hsz⟩, by simp⟩
+         refine ⟨trivial, by codes_tac, Or.inl rfl, fun _ => ⟨?_, hsz⟩, by simp, by simp⟩
          exact ⟨k, hk'⟩)
   all_goals
     try simp only [bind, Except.bind, pure, Except.pure, throw, throwThe, MonadExceptOf.throw] at h
     repeat' split at h
     all_goals first
       | (cases h; done)
-      | (cases h; exact ⟨trivial, by codes_tac, Or.inl rfl, by simp [hk], by simp⟩)
+      | (cases h; exact ⟨trivial, by codes_tac, Or.inl rfl, by simp [hk], by simp, by simp⟩)
 
 end CoCo.Asm
